@@ -629,7 +629,27 @@ MappingUnmarshaller = CastUnmarshaller[tp.Mapping]
 IterableUnmarshaller = CastUnmarshaller[tp.Iterable]
 
 EnumT = tp.TypeVar("EnumT", bound=enum.Enum)
-EnumUnmarshaller = CastUnmarshaller[EnumT]
+
+
+class EnumUnmarshaller(CastUnmarshaller[EnumT], tp.Generic[EnumT]):
+    """Unmarshaller that converts an input to a member of an [`enum.Enum`][] by value.
+
+    Note:
+        Member values may be text which also reads as JSON or a Python literal
+        (`"1"`, `"null"`), so the input is looked up as given before we attempt
+        to load it into a real Python object.
+
+    See Also:
+        - [`typelib.serdes.load`][]
+    """
+
+    def __call__(self, val: tp.Any) -> EnumT:
+        decoded = serdes.decode(val)
+        if isinstance(decoded, self.t):
+            return decoded
+        with contextlib.suppress(ValueError, TypeError):
+            return self.caster(decoded)
+        return super().__call__(val)
 
 
 LiteralT = tp.TypeVar("LiteralT")
